@@ -55,15 +55,18 @@ def maxInt64 : Int := 9223372036854775807
 
 /-- `strconv.ParseInt(s, 10, 64)`: optional sign, at least one digit, only digits,
 value in the int64 range. `btoi64` agrees with it (its fast path is an optimisation). -/
-def parseInt64 (b : Bytes) : Option Int :=
-  let (neg, ds) := match b with
-    | c :: rest => if c == tMinus then (true, rest) else if c == tPlus then (false, rest) else (false, b)
-    | [] => (false, [])
+def parseSigned (neg : Bool) (ds : Bytes) : Option Int :=
   if ds.isEmpty || !ds.all isDigit then none
   else
-    let v : Int := parseDigits ds
-    let v := if neg then -v else v
+    let v : Int := if neg then -((parseDigits ds : Nat) : Int) else ((parseDigits ds : Nat) : Int)
     if minInt64 ≤ v ∧ v ≤ maxInt64 then some v else none
+
+def parseInt64 : Bytes → Option Int
+  | [] => none
+  | c :: rest =>
+    if c == tMinus then parseSigned true rest
+    else if c == tPlus then parseSigned false rest
+    else parseSigned false (c :: rest)
 
 /-! ### encoder (codec.go `encoder.encode`) -/
 
